@@ -1,5 +1,225 @@
-/- C09: statements are being proved (see git history); placeholder keeps the module buildable. -/
-import GoSnaps.Clean
+/-
+C09 — Clean reports every stale item, deletes only in clean mode, and touches nothing else.
+
+Statements only; proofs call `Lemmas/Clean.lean` and `Props/C10.lean`.
+-/
+import GoSnaps.Lemmas.Clean
+import GoSnaps.Props.C10
 namespace GoSnaps.C09
-theorem isNumber_nil : isNumber [] = true := by decide
+
+open GoSnaps
+
+/-! ## 1. every stale entry is reported -/
+
+/-- without `-run` the skip rules reduce to the skip-list test, and no oracle is consulted -/
+theorem testSkipped_noRun (o : Oracles) (skipped : List Text) (tid : Text) :
+    testSkipped o skipped tid [] = some (skipListed skipped tid) :=
+  GoSnaps.testSkipped_noRun o skipped tid
+
+/-- **`stale_reported`** (`runOnly = []`): the scan reports *exactly* the recognised entries that
+are neither registered nor skip-protected, in file order, in both modes; in particular each of
+them is reported -/
+theorem obsolete_eq_stale (o : Oracles) (registered skipped : List Text) (update : Bool)
+    (es : List Entry) (hf : CleanFile es) :
+    (exScan o registered skipped [] update (scan (render es)) .outer {}).obsolete =
+      (es.filter (fun e => !(registered.contains (tidOf e) || skipListed skipped (tidOf e)))).map tidOf := by
+  rw [C10.exScan_render o registered skipped [] update es hf
+    (fun e _ => classified_noRun o registered skipped _)]
+  simp only [keptId_noRun]
+
+theorem stale_reported (o : Oracles) (registered skipped : List Text) (update : Bool)
+    (es : List Entry) (hf : CleanFile es) (e : Entry) (he : e ∈ es)
+    (hnreg : tidOf e ∉ registered) (hnskip : skipListed skipped (tidOf e) = false) :
+    tidOf e ∈ (exScan o registered skipped [] update (scan (render es)) .outer {}).obsolete := by
+  rw [obsolete_eq_stale o registered skipped update es hf]
+  refine List.mem_map.mpr ⟨e, List.mem_filter.mpr ⟨he, ?_⟩, rfl⟩
+  simp [hnreg, hnskip]
+
+/-- … and `examineSnaps` hands exactly that list to the summary, in every mode -/
+theorem stale_reported_by_examineSnaps (o : Oracles) (fs : FS) (cleanup : List (RegKey × Nat))
+    (skipped : List Text) (p : Text) (count : Nat) (update sort : Bool) (registered : List Text)
+    (es : List Entry) (hf : CleanFile es) (hread : fsRead fs p = some (render es))
+    (hreg : registeredFor cleanup p count = some registered)
+    (obs : List Text) (fs' : FS) (w : List Text)
+    (hfirst : examineSnaps o fs cleanup skipped [p] [] count update sort = .ok obs fs' w) :
+    obs = (es.filter (fun e => !(registered.contains (tidOf e) || skipListed skipped (tidOf e)))).map tidOf := by
+  rw [examineSnaps_single o registered skipped [] fs cleanup p count update sort es hf hread hreg
+    (fun e _ => classified_noRun o registered skipped _)] at hfirst
+  rw [(cleanOutcome_ok _ es p fs update sort obs fs' w hfirst).1]
+  simp only [keptId_noRun]
+
+/-- concrete: `[TestB - 1]` unregistered (reported), `[TestS - 1]` unregistered but `TestS` is on
+    the skip list (not reported), `[TestA - 1]` registered -/
+example :
+    let e1 : Entry := ⟨[91, 84, 101, 115, 116, 66, 32, 45, 32, 49, 93], [120]⟩
+    let e2 : Entry := ⟨[91, 84, 101, 115, 116, 83, 32, 45, 32, 49, 93], [121]⟩
+    let e3 : Entry := ⟨[91, 84, 101, 115, 116, 65, 32, 45, 32, 49, 93], [122]⟩
+    (exScan {} [[84, 101, 115, 116, 65, 32, 45, 32, 49]] [[84, 101, 115, 116, 83]] [] false
+      (scan (render [e1, e2, e3])) .outer {}).obsolete = [[84, 101, 115, 116, 66, 32, 45, 32, 49]] := by
+  decide
+
+/-! ## 2. report-only mode removes nothing -/
+
+/-- **`no_update_no_removal_partial`**: with `update = false` AND `sort = false`, `examineSnaps`
+(any list of used files) leaves the file system unchanged and writes no file. -/
+theorem no_update_no_removal_partial (o : Oracles) (fs : FS) (cleanup : List (RegKey × Nat))
+    (skipped used : List Text) (runOnly : Text) (count : Nat)
+    (obs : List Text) (fs' : FS) (w : List Text)
+    (h : examineSnaps o fs cleanup skipped used runOnly count false false = .ok obs fs' w) :
+    fs' = fs ∧ w = [] :=
+  examineSnaps_go_noop o cleanup skipped runOnly count used fs [] [] obs fs' w h
+
+/-- report-only, no sorting, one stale entry: reported, nothing written -/
+example :
+    let e1 : Entry := ⟨[91, 84, 101, 115, 116, 66, 32, 45, 32, 49, 93], [120]⟩
+    let e2 : Entry := ⟨[91, 84, 101, 115, 116, 65, 32, 45, 32, 49, 93], [121]⟩
+    let p : Text := [47, 115, 47, 97, 46, 115, 110, 97, 112]
+    examineSnaps {} [(p, render [e1, e2])] [((p, [84, 101, 115, 116, 66]), 1)] [] [p] [] 1 false false =
+      .ok [[84, 101, 115, 116, 65, 32, 45, 32, 49]] [(p, render [e1, e2])] [] := by decide
+
+/-- **`no_update_no_loss`, one file** (`update = false`, ANY `sort`): the stale ids are reported,
+and afterwards the file holds a permutation of ALL its entries — stale ones included, each with
+its original header and body; with `sort = false` it is not written at all. -/
+theorem no_update_no_loss (o : Oracles) (fs : FS) (cleanup : List (RegKey × Nat))
+    (skipped : List Text) (p runOnly : Text) (count : Nat) (sort : Bool) (registered : List Text)
+    (es : List Entry) (hf : CleanFile es) (hread : fsRead fs p = some (render es))
+    (hreg : registeredFor cleanup p count = some registered)
+    (hcls : ∀ e ∈ es, Classified o registered skipped runOnly (tidOf e))
+    (obs : List Text) (fs' : FS) (w : List Text)
+    (hfirst : examineSnaps o fs cleanup skipped [p] runOnly count false sort = .ok obs fs' w) :
+    obs = (es.filter (fun e => !keptId o registered skipped runOnly (tidOf e))).map tidOf ∧
+    ∃ es', es'.Perm es ∧ CleanFile es' ∧ fsRead fs' p = some (render es') ∧
+      (fs' = fs ∨ fs' = fsWrite fs p (render es')) := by
+  obtain ⟨hobs, es', hf', hr, hcase⟩ := examineSnaps_single_ok o registered skipped runOnly fs cleanup
+    p count false sort es hf hread hreg hcls obs fs' w hfirst
+  refine ⟨hobs, es', ?_, hf', hr, ?_⟩
+  · rcases hcase with ⟨_, _, rfl⟩ | ⟨_, _, hperm⟩
+    · exact List.Perm.refl _
+    · have : es.filter (fun e => keptId o registered skipped runOnly (tidOf e) || !false) = es :=
+        List.filter_eq_self.mpr (fun _ _ => by simp)
+      rwa [this] at hperm
+  · rcases hcase with ⟨h, _, _⟩ | ⟨h, _, _⟩
+    · exact Or.inl h
+    · exact Or.inr h
+
+/-- **`no_update_no_loss`, any list of used files** (`update = false`, any `sort`): whatever
+entry list a path held before the run, it holds a permutation of it afterwards.  `hok`: the used
+files are `CleanFile`s; `hcls`: no oracle miss (a theorem when `runOnly = []`:
+`classified_noRun`). -/
+theorem no_update_no_loss_all (o : Oracles) (fs : FS) (cleanup : List (RegKey × Nat))
+    (skipped used : List Text) (runOnly : Text) (count : Nat) (sort : Bool)
+    (hcls : ∀ p ∈ used, ∀ registered, registeredFor cleanup p count = some registered →
+      ∀ tid, Classified o registered skipped runOnly tid)
+    (hok : ∀ p ∈ used, ∃ es, CleanFile es ∧ fsRead fs p = some (render es))
+    (obs : List Text) (fs' : FS) (w : List Text)
+    (h : examineSnaps o fs cleanup skipped used runOnly count false sort = .ok obs fs' w)
+    (q : Text) (es : List Entry) (hfes : CleanFile es) (hq : fsRead fs q = some (render es)) :
+    ∃ es', es'.Perm es ∧ CleanFile es' ∧ fsRead fs' q = some (render es') :=
+  examineSnaps_go_no_loss o cleanup skipped runOnly count sort used hcls fs [] [] hok obs fs' w h
+    q es hfes hq
+
+/-- **`examineSnaps` touches nothing else**, any mode: only used files are written, and every
+    path outside `used` reads as before -/
+theorem examineSnaps_frame (o : Oracles) (fs : FS) (cleanup : List (RegKey × Nat))
+    (skipped used : List Text) (runOnly : Text) (count : Nat) (update sort : Bool)
+    (obs : List Text) (fs' : FS) (w : List Text)
+    (h : examineSnaps o fs cleanup skipped used runOnly count update sort = .ok obs fs' w) :
+    (∀ q, q ∉ used → fsRead fs' q = fsRead fs q) ∧ ∀ x ∈ w, x ∈ used := by
+  obtain ⟨h1, w2, h2, h3⟩ := examineSnaps_go_frame o cleanup skipped runOnly count update sort used
+    fs [] [] obs fs' w h
+  refine ⟨h1, ?_⟩
+  rw [h2]; simpa using h3
+
+/-
+Defect D5 on the PINNED tree (old `exScan`, which skipped a stale body in every mode): with
+`update = false`, `sort = true` the unsorted file `[TestB - 1]` (registered), `[TestA - 1]`
+(stale) was rewritten WITHOUT the stale entry — a report-only run lost a snapshot.  Checked
+against the old definition as
+
+  theorem sort_without_update_drops_stale :
+      examineSnaps {} [(p, render [e1, e2])] [((p, "TestB"), 1)] [] [p] [] 1 false true =
+        .ok ["TestA - 1"] [(p, render [e1])] [p] := by decide
+
+(kept, building, in the pinned-definition copy of this file).  With the repaired scan the same
+run keeps the stale entry and only sorts:
+-/
+theorem sort_without_update_keeps_stale :
+    let e1 : Entry := ⟨[91, 84, 101, 115, 116, 66, 32, 45, 32, 49, 93], [120]⟩
+    let e2 : Entry := ⟨[91, 84, 101, 115, 116, 65, 32, 45, 32, 49, 93], [121]⟩
+    let p : Text := [47, 115, 47, 97, 46, 115, 110, 97, 112]
+    examineSnaps {} [(p, render [e1, e2])] [((p, [84, 101, 115, 116, 66]), 1)] [] [p] [] 1 false true =
+      .ok [[84, 101, 115, 116, 65, 32, 45, 32, 49]] [(p, render [e2, e1])] [p] := by decide
+
+/-- two used files, report-only with sorting: `/s/a.snap` (unsorted, one stale entry) is
+    rewritten sorted with all its entries, `/s/b.snap` (sorted) is left alone, a third file is
+    untouched; the stale id is reported -/
+example :
+    let e1 : Entry := ⟨[91, 84, 101, 115, 116, 66, 32, 45, 32, 49, 93], [120]⟩
+    let e2 : Entry := ⟨[91, 84, 101, 115, 116, 65, 32, 45, 32, 49, 93], [121]⟩
+    let e3 : Entry := ⟨[91, 84, 101, 115, 116, 67, 32, 45, 32, 49, 93], [122]⟩
+    let a : Text := [47, 115, 47, 97, 46, 115, 110, 97, 112]
+    let b : Text := [47, 115, 47, 98, 46, 115, 110, 97, 112]
+    let c : Text := [47, 115, 47, 99, 46, 115, 110, 97, 112]
+    examineSnaps {} [(a, render [e1, e2]), (b, render [e3]), (c, [7])]
+        [((a, [84, 101, 115, 116, 66]), 1), ((b, [84, 101, 115, 116, 67]), 1)] [] [a, b] [] 1 false true =
+      .ok [[84, 101, 115, 116, 65, 32, 45, 32, 49]]
+        [(a, render [e2, e1]), (b, render [e3]), (c, [7])] [a] := by decide
+
+/-! ## 3. `examineFiles` removes only orphan `.snap` entries, and only in clean mode -/
+
+/-- **`examineFiles_untouched`.**  For every successful run:
+* every reported path (hence every removed one) is `Orphan`: `filepath.Join(dir, name)` for a
+  visited directory `dir` (the directory of a registered file or standalone snapshot) and a
+  directory entry `name` — non-empty, slash-free, i.e. *directly inside* `dir` — whose name contains
+  `.snap`, and the path is neither a registered file nor a registered standalone snapshot;
+* `update = false`: nothing is removed and the file system is unchanged;
+* `update = true`: the removed paths are exactly the reported ones;
+* the resulting file system is the original one minus the removed paths, so every other path
+  reads as before. -/
+theorem examineFiles_untouched (o : Oracles) (fs : FS) (regPaths standalone : List Text)
+    (runOnly : Text) (update : Bool) (r : FilesResult)
+    (h : examineFiles o fs regPaths standalone runOnly update = some r) :
+    (∀ p ∈ r.obsolete, Orphan regPaths standalone p) ∧
+    (update = false → r.removed = [] ∧ r.fs = fs) ∧
+    (update = true → r.removed = r.obsolete) ∧
+    (∀ q, q ∉ r.removed → fsRead r.fs q = fsRead fs q) := by
+  have inv := examineFiles_inv o fs regPaths standalone runOnly update r h
+  refine ⟨inv.orphan, ?_, ?_, ?_⟩
+  · intro hu
+    have h1 : r.removed = [] := by rw [inv.removed_eq, hu]; rfl
+    refine ⟨h1, ?_⟩
+    rw [inv.fs_eq, h1]; rfl
+  · intro hu; rw [inv.removed_eq, hu]; rfl
+  · intro q hq; rw [inv.fs_eq]; exact fsRead_foldl_fsRemove fs r.removed q hq
+
+/-- a name without `.snap` is never removed: every removed path is `Join(dir, name)` with
+    `.snap` in `name` (unfolding `Orphan`) -/
+theorem removed_contains_snap (o : Oracles) (fs : FS) (regPaths standalone : List Text)
+    (runOnly : Text) (update : Bool) (r : FilesResult)
+    (h : examineFiles o fs regPaths standalone runOnly update = some r) (p : Text)
+    (hp : p ∈ r.removed) :
+    ∃ dir ∈ (regPaths ++ standalone).map fpDir, ∃ name, p = fpJoin [dir, name] ∧
+      containsSub name Generated.snapsExt = true ∧ name ≠ [] ∧ slash ∉ name ∧
+      p ∉ regPaths ∧ p ∉ standalone := by
+  have inv := examineFiles_inv o fs regPaths standalone runOnly update r h
+  have : p ∈ r.obsolete := by
+    rw [inv.removed_eq] at hp
+    split at hp
+    · exact hp
+    · cases hp
+  exact inv.orphan p this
+
+/-- concrete: directory `/s` holds the registered `a.snap`, an orphan `b.snap`, a non-snapshot
+    `notes.txt` and a sub-directory entry `d/c.snap`; clean mode removes `b.snap` only -/
+example :
+    let a : Text := [47, 115, 47, 97, 46, 115, 110, 97, 112]
+    let b : Text := [47, 115, 47, 98, 46, 115, 110, 97, 112]
+    let n : Text := [47, 115, 47, 110, 111, 116, 101, 115, 46, 116, 120, 116]
+    let c : Text := [47, 115, 47, 100, 47, 99, 46, 115, 110, 97, 112]
+    let fs : FS := [(a, [1]), (b, [2]), (n, [3]), (c, [4])]
+    examineFiles {} fs [a] [] [] true =
+      some { obsolete := [b], used := [a], fs := [(a, [1]), (n, [3]), (c, [4])], removed := [b] } ∧
+    examineFiles {} fs [a] [] [] false =
+      some { obsolete := [b], used := [a], fs := fs, removed := [] } := by decide
+
 end GoSnaps.C09
